@@ -247,6 +247,15 @@ class S:
     def __init__(self, parts=()):
         out = []
         for x in parts:
+            if x[0] == "fv" and x[1] is not None and isinstance(x[2], Lin) and x[2].is_const() and x[2].c.denominator == 1:
+                sp = parse_spec(x[1]) if not x[1].startswith("%") else None
+                try:
+                    if sp is not None and sp.type in ("d", ""):
+                        x = ("lit", format(int(x[2].c), x[1]))
+                    elif x[1].startswith("%") and x[1][-1] in "di":
+                        x = ("lit", x[1] % int(x[2].c))
+                except (ValueError, TypeError):
+                    pass
             if x[0] == "lit":
                 if not x[1]:
                     continue
@@ -955,6 +964,7 @@ class Engine:
         self.all_events = {}
         self._modconst = {}
         self.follow = follow
+        self.locals = set()
         self.depth = 0
         self.nested = {n.name: n for n in fn.body if isinstance(n, ast.FunctionDef)}
         for n in walk_no_nested(fn):
@@ -1002,10 +1012,14 @@ class Engine:
         defs = [st for st in self.mod.tree.body if isinstance(st, ast.Assign) and len(st.targets) == 1 and isinstance(st.targets[0], ast.Name)
                 and st.targets[0].id == name]
         if len(defs) == 1:
+            saved = getattr(self, "locals", set())
+            self.locals = set()               # a module-level expression does not see the function's locals
             try:
                 v = self.ev(defs[0].value, State())
             except Unsupported:
                 v = None
+            finally:
+                self.locals = saved
             if isinstance(v, (S, Lin)) or _is_k(v) or (isinstance(v, tuple) and v and v[0] == "tuple"):
                 self._modconst[name] = v
         return self._modconst[name]
@@ -1314,8 +1328,25 @@ class Engine:
 
     def if_(self, node, st):
         outs = []
+        starts = []
         for s in self.simple_forks(node.test, st):
-            t = self.ev(node.test, s)
+            # `if helper(x):` / `if not helper(x):` with a helper of the module: one state per path of the helper
+            call = node.test.operand if isinstance(node.test, ast.UnaryOp) and isinstance(node.test.op, ast.Not) else node.test
+            fnode = self.inlinable(call, s) if isinstance(call, ast.Call) else None
+            if fnode is not None:
+                for s3, v in self.inline(call, fnode, s):
+                    if s3.status != "run":
+                        outs.append(s3)
+                        continue
+                    if call is not node.test:
+                        r_ = truth(v, {})
+                        v = ("k", not r_) if r_ is not None else ("not", v)
+                    starts.append((s3, v))
+            else:
+                starts.append((s, None))
+        for s, t in starts:
+            if t is None:
+                t = self.ev(node.test, s)
             self.emit(s, "test", node, test=t)
             r = self.decide(t, s)
             if r is True:
